@@ -127,6 +127,15 @@ def cycle_guard(ctx, fb, T):
         ctx.inst(R, 'recursion-guarded', ok, det, c.loc())
         ins_ok = any(f.dominates(i.bb, c.bb) and has_param_origin(f.origins(i.args[1]), 1) and root_local(f, i.args[0]) == root_local(f, c.args[3]) for i in inserts)
         ctx.inst(R, 'active-insert-dominates', ins_ok, 'active_set.insert(op_node_id) dominates the recursive call', c.loc())
+    # "planning always terminates" also needs the recursion *depth* to be bounded by something other than the graph: visit
+    # descends one frame per dependency level, so its depth is the longest dependency chain of the model
+    gated = False
+    for c in rec:
+        for (op, a, b, g) in normalized_cmps(f, c.bb):
+            if op in ('Lt', 'Le', 'Gt', 'Ge') and op_int(b) is not None and any(o[0] == 'param' and f.local_ty(o[1] + 1) in ('usize', 'u32', 'u16', 'u64') for o in f.origins(a)):
+                gated = True
+    ctx.inst(R, 'depth-bounded:visit', gated, 'the recursive call is behind a depth gate' if gated else
+             'PlanBuilder::visit recurses once per dependency level with no depth limit and no explicit stack: planning a chain of a few thousand operators overflows the thread stack (process abort) instead of returning a plan or an error', f.loc())
     oks = [(bb, k, i) for bb, k, i in L.return_defs(f) if k == 'ok']
     rem_ok = bool(oks) and all(any(f.dominates(r.bb, bb) and has_param_origin(f.origins(r.args[1]), 1) for r in removes) for bb, k, i in oks)
     ctx.inst(R, 'active-remove-before-ok', rem_ok, 'active_set.remove(op_node_id) dominates every Ok exit (pairing with insert)', f.loc())
